@@ -109,3 +109,62 @@ impl Trg {
         v.extend(((self.w68_hi & 0xFFFF_FF00) | self.latch as u32).to_le_bytes()); v.extend(self.fw.to_le_bytes()); v.extend(((self.footer_hi << 28) | self.footer_lo.unwrap_or(lo)).to_le_bytes()); v
     }
 }
+
+fn crc_tables() -> ([u32; 256], [usize; 256]) {
+    let mut t = [0u32; 256];
+    for i in 0..256u32 {
+        let mut c = i;
+        for _ in 0..8 {
+            c = if c & 1 == 1 { (c >> 1) ^ 0x82F63B78 } else { c >> 1 };
+        }
+        t[i as usize] = c;
+    }
+    let mut rev = [0usize; 256];
+    for (i, e) in t.iter().enumerate() {
+        rev[(e >> 24) as usize] = i;
+    }
+    (t, rev)
+}
+/// CRC register (not inverted) after feeding `bytes`, starting from `reg`.
+pub fn crc_reg_after(mut reg: u32, bytes: &[u8]) -> u32 {
+    let (t, _) = crc_tables();
+    for b in bytes {
+        reg = t[((reg ^ *b as u32) & 0xFF) as usize] ^ (reg >> 8);
+    }
+    reg
+}
+/// CRC register before `bytes` were fed, given the register after them (the CRC is invertible).
+pub fn crc_reg_before(mut reg: u32, bytes: &[u8]) -> u32 {
+    let (t, rev) = crc_tables();
+    for b in bytes.iter().rev() {
+        let idx = rev[(reg >> 24) as usize];
+        reg = ((reg ^ t[idx]) << 8) | (idx as u32 ^ *b as u32);
+    }
+    reg
+}
+/// Four bytes that take the CRC register from `start` to `want`.
+pub fn crc_forge_bytes(start: u32, want: u32) -> [u8; 4] {
+    let (t, rev) = crc_tables();
+    let mut reg = want;
+    let mut idx = [0usize; 4];
+    for k in (0..4).rev() {
+        let i = rev[(reg >> 24) as usize];
+        idx[k] = i;
+        reg = (reg ^ t[i]) << 8;
+    }
+    let mut r = start;
+    let mut out = [0u8; 4];
+    for k in 0..4 {
+        out[k] = (idx[k] as u32 ^ (r & 0xFF)) as u8;
+        r = t[idx[k]] ^ (r >> 8);
+    }
+    out
+}
+/// Four bytes `s` such that crc32c(prefix ++ s) == target.
+pub fn crc32c_forge_suffix(prefix: &[u8], target: u32) -> [u8; 4] {
+    crc_forge_bytes(crc_reg_after(!0, prefix), !target)
+}
+/// Four bytes `m` such that crc32c(head ++ m ++ tail) == target.
+pub fn crc32c_forge_middle(head: &[u8], tail: &[u8], target: u32) -> [u8; 4] {
+    crc_forge_bytes(crc_reg_after(!0, head), crc_reg_before(!target, tail))
+}
